@@ -15,6 +15,7 @@ counterexample on the unrepaired model (the harness replays the same table on th
 -/
 import TallyVerif.Lemmas.Csv
 import TallyVerif.Lemmas.Strptime
+import TallyVerif.Lemmas.AmountTables
 
 namespace TallyVerif.Props.C05
 open TallyVerif.Csv
@@ -897,5 +898,24 @@ example :
   decide +kernel
 
 end Date
+
+/-! ### `parse_amount`'s constants, regenerated from the source
+
+`Gen/AmountTables.lean` is rewritten on every run from parsers.py by `harness/translate/amount_tables.py`, which also checks that
+`parse_amount` still is the seven-statement straight-line program `Csv.cleanWith` spells out (strip, parenthesis test, currency class,
+the removals and the conversion of the decimal mode, `float`, sign).  The obligation below says that this program, over the constants
+the source holds NOW, is the hand model `cleanAmount` that every amount theorem of this file is about: another currency symbol, another
+thousands separator, a different parenthesis pair re-opens it (and the check then searches the real code for a cell read differently). -/
+
+/-- tie #1 for the amount cell: `parse_amount` over its regenerated constants = `Csv.cleanAmount`, for every decimal mode and cell -/
+theorem amount_tables_are_the_model (eu : Bool) (cell : Str) :
+    cleanWith Gen.AmountTables.parenOpen Gen.AmountTables.parenClose Gen.AmountTables.currencySymbols Gen.AmountTables.euSeparator
+      Gen.AmountTables.euRemoved Gen.AmountTables.decimalPoint Gen.AmountTables.usRemoved eu cell = cleanAmount eu cell :=
+  cleanWith_generated eu cell
+
+/-- the program is not vacuous: with OTHER constants it reads cells differently (a rupee sign is not a currency symbol of the pinned code) -/
+example : cleanWith '(' ')' ['$', '₹'] ',' ['.', ' '] '.' [','] false "₹1,250.50".toList = (false, "1250.50".toList) ∧
+    cleanAmount false "₹1,250.50".toList = (false, "₹1250.50".toList) ∧
+    cleanAmount true "(€ 1.234,56)".toList = (true, "1234.56".toList) := by decide +kernel
 
 end TallyVerif.Props.C05
